@@ -1,32 +1,70 @@
 //! Runs the REAL compiled fixed-point functions (real soroban-sdk host for the I256 path) on concrete inputs.
-//! stdin: one request per line `<fn> <x> <y> <d>`; stdout: the result, `NONE` (checked variant) or `ERR` (panic).
+//! stdin, one request per line; stdout: the result, `NONE` (checked variant returned None) or `ERR` (panic / host trap).
+//!   <fn> <x> <y> <d>                       i128 functions: mul_div_floor|mul_div_ceil|mul_div|checked_mul_div_floor|…
+//!   i256 <fn> <x limbs> <y limbs> <d limbs> I256 functions; a limb group is `hi_hi:hi_lo:lo_hi:lo_lo` (i64:u64:u64:u64)
+//!   wad <op> <a> <b>                        checked_mul|checked_div|from_ratio|checked_mul_int|checked_div_int|from_integer
 use std::io::{self, BufRead};
 use std::panic;
 
-use soroban_sdk::Env;
-use stellar_contract_utils::math::{checked_mul_div_i128, mul_div_i128, Rounding};
+use soroban_sdk::{Env, I256};
+use stellar_contract_utils::math::wad::Wad;
+use stellar_contract_utils::math::{checked_mul_div_i128, checked_mul_div_i256, mul_div_i128, mul_div_i256, Rounding};
+
+fn i256(e: &Env, s: &str) -> I256 {
+    let p: Vec<&str> = s.split(':').collect();
+    I256::from_parts(e, p[0].parse().unwrap(), p[1].parse().unwrap(), p[2].parse().unwrap(), p[3].parse().unwrap())
+}
+fn show(v: &I256) -> String {
+    let b = v.to_be_bytes();
+    let mut s = String::from("0x");
+    for x in b.iter() {
+        s.push_str(&format!("{:02x}", x));
+    }
+    s
+}
+fn rounding(f: &str) -> Rounding {
+    if f.ends_with("floor") { Rounding::Floor } else if f.ends_with("ceil") { Rounding::Ceil } else { Rounding::Truncate }
+}
 
 fn main() {
     panic::set_hook(Box::new(|_| {}));
     let stdin = io::stdin();
     for line in stdin.lock().lines() {
         let line = line.unwrap();
-        let p: Vec<&str> = line.split_whitespace().collect();
-        if p.len() != 4 {
+        let p: Vec<String> = line.split_whitespace().map(|s| s.to_string()).collect();
+        if p.is_empty() {
             continue;
         }
-        let (x, y, d): (i128, i128, i128) = (p[1].parse().unwrap(), p[2].parse().unwrap(), p[3].parse().unwrap());
-        let f = p[0].to_string();
-        let r = panic::catch_unwind(move || {
+        let r = panic::catch_unwind(move || -> Option<String> {
             let e = Env::default();
-            match f.as_str() {
-                "mul_div_floor" => Some(mul_div_i128(&e, x, y, d, Rounding::Floor)),
-                "mul_div_ceil" => Some(mul_div_i128(&e, x, y, d, Rounding::Ceil)),
-                "mul_div" => Some(mul_div_i128(&e, x, y, d, Rounding::Truncate)),
-                "checked_mul_div_floor" => checked_mul_div_i128(&e, x, y, d, Rounding::Floor),
-                "checked_mul_div_ceil" => checked_mul_div_i128(&e, x, y, d, Rounding::Ceil),
-                "checked_mul_div" => checked_mul_div_i128(&e, x, y, d, Rounding::Truncate),
-                _ => panic!("unknown"),
+            if p[0] == "i256" {
+                let (x, y, d) = (i256(&e, &p[2]), i256(&e, &p[3]), i256(&e, &p[4]));
+                let f = p[1].as_str();
+                if f.starts_with("checked") {
+                    checked_mul_div_i256(&e, x, y, d, rounding(f)).map(|v| show(&v))
+                } else {
+                    Some(show(&mul_div_i256(&e, x, y, d, rounding(f))))
+                }
+            } else if p[0] == "wad" {
+                let a: i128 = p[2].parse().unwrap();
+                let b: i128 = p.get(3).map(|s| s.parse().unwrap()).unwrap_or(0);
+                match p[1].as_str() {
+                    "checked_mul" => Wad::from_raw(a).checked_mul(&e, Wad::from_raw(b)).map(|w| w.raw().to_string()),
+                    "checked_div" => Wad::from_raw(a).checked_div(&e, Wad::from_raw(b)).map(|w| w.raw().to_string()),
+                    "from_ratio" => Some(Wad::from_ratio(&e, a, b).raw().to_string()),
+                    "checked_mul_int" => Wad::from_raw(a).checked_mul_int(b).map(|w| w.raw().to_string()),
+                    "checked_div_int" => Wad::from_raw(a).checked_div_int(b).map(|w| w.raw().to_string()),
+                    "from_integer" => Some(Wad::from_integer(&e, a).raw().to_string()),
+                    _ => panic!("unknown"),
+                }
+            } else {
+                let (x, y, d): (i128, i128, i128) = (p[1].parse().unwrap(), p[2].parse().unwrap(), p[3].parse().unwrap());
+                let f = p[0].as_str();
+                if f.starts_with("checked") {
+                    checked_mul_div_i128(&e, x, y, d, rounding(f)).map(|v| v.to_string())
+                } else {
+                    Some(mul_div_i128(&e, x, y, d, rounding(f)).to_string())
+                }
             }
         });
         match r {
